@@ -101,7 +101,15 @@ def loader_decisions(F):
     return out
 
 
+def _cutoff(F):
+    from props.C02 import replay_skip
+    return replay_skip(F)
+
+
 MOS += [
+    MO("O13.5/replay_cutoff", "recover: the replay cut-off is the loaded snapshot's own last_wal_seq / timestamp (nothing read from the unchecksummed MANIFEST): every entry newer than the snapshot that was actually loaded "
+       "is applied — so a damaged MANIFEST value or a fallback to an older snapshot cannot silently drop acknowledged entries (same DECIDES obligation as C02 O2.1)", _cutoff,
+       functions=[("hnsw_backend.rs", "recover_with_hnsw_params_and_mode")]),
     MO("O13.4/loader_decisions", "Snapshot::load: Ok => magic == SNAPSHOT_MAGIC and stored crc == crc32(payload) and version == SNAPSHOT_VERSION; payload deserialised only after magic and crc matched; "
        "WalReader::open: Ok => magic == WAL_MAGIC — for all values (DECIDES)", lambda F: loader_decisions(F), functions=[("persistence.rs", "load"), ("persistence.rs", "open")]),
     MO("O13.4/snapshot_load", "Snapshot::load: Ok only when the payload validates (validate_and_normalize succeeded); the checksum is computed before any byte of the payload is deserialised",
